@@ -2426,7 +2426,7 @@ func (t *tr2) fromEntryDecls(f *ast.File) string {
 		if strings.Contains(src(t.fset, st), "FetchParallel") {
 			iFetch = i
 		}
-		if src(t.fset, st) == "length := -1" {
+		if as, ok := st.(*ast.AssignStmt); ok && as.Tok == token.DEFINE && len(as.Lhs) == 1 && src(t.fset, as.Lhs[0]) == "length" && iFetch < 0 {
 			iLen = i
 		}
 	}
